@@ -11,9 +11,12 @@ KEYS = "jkghl cra.:0123456789opb"
 DEAD = ["http://dead.invalid/x", "gopher://dead.invalid/", "mailto:x@y.invalid"]
 
 
-def ui_case(world, keys, preload=2, width=60, height=20, feeds=None):
-    """world: list of (parent, has_kids, kids, links); root: item id"""
+def ui_case(world, keys, preload=2, width=60, height=20, feeds=None, open_container=False):
+    """world: list of (parent, has_kids, kids, links); root: item id; open_container: the root's reply collection is opened as a
+    page of its own (switchTo(Container)) instead of the root item"""
     items, root = world
+    if open_container and items[root][1]:
+        root = -(root + 1)
     toks = [preload, width, height, len(items)]
     for (parent, has_kids, kids, links) in items:
         toks += [parent, 1 if has_kids else 0] + list_tokens(kids) + [len(links)]
@@ -302,6 +305,11 @@ class C07(Spec):
             # the cursor wanders while a load is held: the "Loading" markers depend on where the window ends relative to it
             keys = [ord(rng.choice("jk")) for _ in range(rng.randint(0, 4))] + [256] + [ord(rng.choice("kkjjg")) for _ in range(rng.randint(2, 7))] + [257] + [ord(rng.choice("jk")) for _ in range(3)]
             cases.append(ui_case(w, keys, preload=rng.choice((0, 1, 2, 3)), height=rng.choice((20, 8)), feeds=feeds))
+        # collection pages (what ":feed" and ":open <collection>" show): the listing starts at its first item
+        for _ in range(60 if tier == "quick" else 2500):
+            w = thread_world(rng)
+            keys = [ord(rng.choice("jjjkkg hl")) for _ in range(rng.randint(3, 20))]
+            cases.append(ui_case(w, keys, preload=rng.choice((0, 1, 2, 3)), feeds=feeds, open_container=True))
         for _ in range(250 if tier == "quick" else 15000):
             w = thread_world(rng)
             keys = rand_keys(rng, rng.randint(5, 60))
